@@ -1,7 +1,7 @@
 (* C15 -- specialised representations agree with the general one: their shortcuts change cost only.
    magree u v = same shape, same natural parameters entrywise, and EQUAL caches wherever both have them. *)
 From mathcomp Require Import all_ssreflect all_algebra.
-From GT Require Import Tensor DetExec LogDom Obj Factor Measure Pdf Cond EvalLemmas Spec C01_proofs PdfLemmas C04_proofs C15_proofs.
+From GT Require Import Tensor DetExec LogDom Obj Factor Measure Pdf Cond EvalLemmas Spec C01_proofs PdfLemmas C04_proofs C15_proofs C15_nn.
 Import GRing.Theory Num.Theory.
 Local Open Scope ring_scope.
 
@@ -71,6 +71,18 @@ Theorem C15_identity_conditional (c : cond LS) (p : measure LS) k :
       forall i j, (i < cDx c)%N -> (j < cDx c)%N -> cSig a k i j = cSig b k i j /\ cLam a k i j = cLam b k i j
     & chS a k = chS b k].
 Proof. exact: ident_affine_conditional. Qed.
+(* the NN-controlled conditional: set_control_variable(u) is a general (class CFull) conditional with M(u), b(u)
+   from the control function and the one covariance tiled; it satisfies the conditional invariant, so every theorem
+   about general conditionals applies to it verbatim *)
+Theorem C15_nn_control_is_general (base : cond LS) Ru (M : nat -> mat F) (b : nat -> vec F) r : (r < Ru)%N ->
+  let c := nn_set_control base Ru M b in
+  [/\ ccl c = CFull, cR c = Ru, cDy c = cDy base /\ cDx c = cDx base,
+      cMm c r = mxf (cDy base) (cDx base) (M r) /\ cbv c r = cvf (cDy base) (b r)
+    & [/\ cSg c r = cSg base 0%N, cLm c r = cLm base 0%N & chS c r = chS base 0%N]].
+Proof. exact: nn_control_fields. Qed.
+Theorem C15_nn_control_wellformed (base : cond LS) Ru (M : nat -> mat F) (b : nat -> vec F) :
+  cond_ok base -> (0 < cR base)%N -> cond_ok (nn_set_control base Ru M b).
+Proof. exact: nn_control_ok. Qed.
 End C15.
 Print Assumptions C15_multiply_special_is_general.
 Print Assumptions C15_hadamard_special_is_general.
@@ -83,3 +95,6 @@ Print Assumptions C15_identity_set_y.
 Print Assumptions C15_identity_joint.
 Print Assumptions C15_identity_marginal.
 Print Assumptions C15_identity_conditional.
+Print Assumptions C15_nn_control_is_general.
+Print Assumptions C15_nn_control_wellformed.
+Print Assumptions C15_factor_same_function.
